@@ -701,7 +701,7 @@ theorem step_inv {n : Sizes} {fx : Bool} {g : Grows} {h : Heap} {r : Runner} {op
     · cases e
     · next h' hh =>
       cases e
-      have f1 := HeapFr.of_strs inv.le (sliceAppendList_fr g.strs vals h.strs Slice.nil inv.le.1 (Owned.nil _)).1
+      have f1 := HeapFr.of_strs inv.le (sliceAppendList_fr g.strs vals h.strs Slice.empty inv.le.1 (Owned.empty _)).1
       have f2 := setVar_fr (inv.step f1) hh
       exact ⟨f1.trans f2, inv.step (f1.trans f2)⟩
   | shift k =>
